@@ -40,7 +40,7 @@ OBLIGATIONS = {"mode:plain": 20, "mode:zip-x.csv": 20, "mode:zip-x.zip": 20,
                "col:float": 50, "col:int": 50, "col:text": 50, "fmt:%0.5f": 20,
                "fmt:%0.2f": 10, "fmt:%0.10e": 10, "fmt:None": 10, "comments": 100,
                "comment:colon": 20, "comment:hash": 10, "comment:dashes": 3,
-               "sysinfo:on": 20, "sysinfo:off": 20}
+               "sysinfo:on": 20, "sysinfo:off": 20, "archive:multi-member": 20}
 RESERVED = {"nrow", "ncol", "time_generated", "author", "source_file", "work_dir",
             "python_version", "pandas_version", "numpy_version", "python_inc",
             "python_lib", "comment", "python_environment"}
@@ -200,6 +200,18 @@ def run_case(ctx, case):
             fname = f"a/b/{stem}.csv"
             archive = zipfile.ZipFile(wd / "arch.zip", "w")
             kw = {"archive": archive}
+            # other members first, with names that contain / are contained in ours
+            others = {f"north/a/b/{stem}.csv": 1, f"b/{stem}.csv": 2,
+                      f"a/b/{stem}.csv.bak": 3}
+            for oname, k in others.items():
+                odf = pd.DataFrame({"k": [k, k + 1], "t": [f"member{k}", "x"]})
+                ctx.tag("archive:multi-member")
+                try:
+                    csv.write_csv(odf, oname, {"which": str(k)}, src, archive=archive,
+                                  write_sys_info=False)
+                except Exception as e:
+                    ctx.check("write.runs", False, "write_csv|raises|archive-multi",
+                              case, {"exc": repr(e), "member": oname})
         ctx.api("write_csv")
         with warnings.catch_warnings():
             warnings.simplefilter("ignore")
@@ -232,6 +244,15 @@ def run_case(ctx, case):
                           lambda: {"exc": repr(e), "files": produced,
                                    "members": members, "name_given": str(fname)})
                 return
+        if archive is not None:
+            for oname, k in others.items():
+                try:
+                    od, oc = csv.read_csv(oname, archive=archive)
+                    okm = list(od["k"]) == [k, k + 1] and oc.get("which") == str(k)
+                except Exception as e:
+                    okm = False
+                ctx.check("rt.archive-members", okm, "roundtrip|archive-other-member",
+                          case, lambda: {"member": oname})
         # ------------------------------------------------ round-trip predicate
         names = [str(c) for c in got.columns]
         ctx.check("rt.columns", names == [c["name"] for c in cols],
